@@ -36,7 +36,7 @@ ASSUMPTIONS = [
     "the two runs are not bit-identical (Re differs by ~5e-16 / 2e-7 of max|F|), and such round-off travels with the "
     "wave: Field/Phasor records use scale = max(max|record|, rho*max|F| over the whole domain and all steps), "
     "rho = 1e-3 f64 / 0.1 f32; Energy/Poynting records (products of fields, absolute noise eps*max|F|*(|E|+|H|)) are "
-    "compared only when their raw per-cell values reach rho_q^2*max|F|^2, rho_q = 0.03 f64 / 0.3 f32 (unreduced twin "
+    "compared only when their raw per-cell values reach theta*max|F|*max|F_local|, theta = 1e-3 f64 / 0.1 f32 (unreduced twin "
     "detector for reduced records); reduced Poynting sums are scaled by their cancellation factor from that twin",
     "initial fields, when present, are real and identical in both runs (cast to the storage dtype)",
 ]
@@ -95,6 +95,23 @@ def _open_interior(shape, faces):
             hi -= 1
         out.append((lo, hi))
     return out
+
+
+def _aim(d, s, shape):
+    """Shift detector box d (size kept) so that it contains a cell lit by source s — otherwise most random boxes sit
+    where the wave has not arrived within the run and their quadratic records are below the round-off noise."""
+    if s["type"] in ("uniform_plane", "gaussian_plane"):
+        p = [n // 2 for n in shape]
+        p[s["axis"]] = s["pos"]
+    elif s["type"] == "tfsf_region":
+        p = [(a + b) // 2 for a, b in zip(s["lo"], s["hi"])]
+    else:
+        p = list(s["pos"])
+    for a in range(3):
+        size = d["hi"][a] - d["lo"][a]
+        if not d["lo"][a] <= p[a] < d["hi"][a]:
+            d["lo"][a] = max(0, min(p[a], shape[a] - size))
+            d["hi"][a] = d["lo"][a] + size
 
 
 def _fix_poynting_axis(d):
@@ -184,6 +201,8 @@ def case_strategy(draw, ctx):
         d["switch"] = _window(draw, steps)
         if k == "energy" and not d.get("reduce") and draw(st.integers(0, 3)) == 0:
             d["as_slices"] = True
+        if draw(st.integers(0, 3)) > 0:
+            _aim(d, sources[i % n_src], shape)
         _fix_poynting_axis(d)
         dets.append(d)
 
@@ -271,14 +290,16 @@ def body(ctx, case):
     allr = recr[ALL]["fields"]
     fmax = max(_amax(allr), _amax(recc[ALL]["fields"]), 1e-300)
 
-    rho_q = ctx.tol(0.03, 0.3)  # quadratic records: compared when max|raw record| >= rho_q^2 * max|F|^2
+    theta = ctx.tol(1e-3, 0.1)  # quadratic records: compared when max|raw record| >= theta * max|F| * max|F_local|
 
     def below_noise(name, key):
-        """A product of fields carries the absolute noise eps*max|F|*(|E|+|H|); below rho_q^2*max|F|^2 its relative
-        noise exceeds the stated tolerance (seen: S = 1e-26 from components of 1e-13 next to a dipole of 0.1,
-        relative difference between the two runs 2e-5).  Raw = per-cell values (unreduced twin for reduced records)."""
+        """A product of fields carries the absolute noise ~4*eps*max|F|*|F_local|; below theta*max|F|*|F_local| its
+        relative noise exceeds the stated tolerance (seen: S = 1e-26 from components of 1e-13 in the cell of a dipole of
+        0.1, relative difference between the two runs 2e-5).  Raw = per-cell values (unreduced twin if reduced)."""
+        d = by_name[name]
         raw = recr[name + TWIN][key] if name + TWIN in recr else recr[name][key]
-        return _amax(raw) < rho_q * rho_q * fmax * fmax
+        region = (slice(None), slice(None), *(slice(max(lo - 1, 0), hi + 1) for lo, hi in zip(d["lo"], d["hi"])))
+        return _amax(raw) < theta * fmax * _amax(allr[region])
 
     quad_live = any(not below_noise(n, k) for n, t in dets.items() if t in QUAD for k in recr[n])
     if max(_amax(Er), _amax(Hr)) == 0.0:
